@@ -32,7 +32,15 @@ fn main() {
     };
     match r {
         Ok(info) => { println!("RESULT {{\"ok\":true,{info}}}"); }
-        Err(w) => { println!("RESULT {{\"ok\":false,\"witness\":{:?}}}", w); std::process::exit(1) }
+        Err(w) => {
+            if let Some(rest) = w.strip_prefix("FAILURES\n") {
+                let list: Vec<String> = rest.lines().map(|l| format!("{:?}", l)).collect();
+                println!("RESULT {{\"ok\":false,\"witness\":{:?},\"failures\":[{}]}}", rest.lines().next().unwrap_or(""), list.join(","));
+            } else {
+                println!("RESULT {{\"ok\":false,\"witness\":{:?}}}", w);
+            }
+            std::process::exit(1)
+        }
     }
 }
 
